@@ -2,7 +2,7 @@
 # usage: confirm_seed.sh <PROP> <mN>   -- confirms a sub-agent mutation in its scratch worktree /tmp/mut/<PROP>
 # writes /verif/seeded/<PROP>-<mN>/{patch.diff,demo.rs,notes.md,confirm.log,meta.json}
 set -u
-P=$1; M=$2; WT=/tmp/mut/$P; SRC=$WT/out/$M; DST=/verif/seeded/$P-$M
+P=$1; M=$2; WT=${3:-/tmp/mut/$P}; NAME=${4:-$P-$M}; SRC=$WT/out/$M; DST=/verif/seeded/$NAME
 mkdir -p $DST
 cd $WT || exit 1
 git checkout -q -- crates 2>/dev/null; git clean -fdq crates 2>/dev/null
@@ -30,4 +30,4 @@ json.dump({"property":"$P","mutation":"$M","demo_crate":"$where","confirmed":"$o
  "needs": open("$SRC/notes.md").read()[:1500]}, open("$DST/meta.json","w"), indent=1)
 PY
 rm -f $LOG.suite $LOG.demo1 $LOG.demo2
-echo "$P $M confirmed=$ok"
+echo "$NAME confirmed=$ok"
